@@ -924,13 +924,18 @@ func c13AcctOps(wide bool) []c13Op {
 	return ops
 }
 
-// c13AcctCoreOps is the two-account alphabet without explicit CreateAccount (implicit creation through the
-// setters takes the same createObject path) and without the second revert target; used for the deepest breadth run.
+// c13AcctCoreOps is the two-account alphabet with the full operation set on A but only the balance, touch,
+// storage and self-destruct operations on B; used for the deepest breadth run of the quick tier (the full
+// alphabet runs one level shallower, the single-account families deeper).
 func c13AcctCoreOps() []c13Op {
 	var ops []c13Op
 	for _, o := range c13AcctOps(false) {
-		if o.kind == c13kCreateAccount || (o.kind == c13kRevert && o.v == 1) {
-			continue
+		if o.a == c13B {
+			switch {
+			case o.kind == c13kAddBal, o.kind == c13kSelfDestruct, o.kind == c13kSetState && o.v == 1:
+			default:
+				continue
+			}
 		}
 		ops = append(ops, o)
 	}
